@@ -102,6 +102,7 @@ pub fn run(tier: Tier) -> i32 {
                 return;
             }
             let voiced: Vec<bool> = t.1.iter().map(|f| f[0] != NODATA).collect();
+            rep.outcome(fnv(format!("{:?}", voiced).as_bytes()));
             for (fi, vflag) in voiced.iter().enumerate() {
                 rep.cmp(1);
                 let want = msd[frame_state[fi]] > th;
